@@ -38,3 +38,12 @@ Example C08_buffer_bound_tight :
                     [Buffer.C; Buffer.W; Buffer.W; Buffer.W; Buffer.C; Buffer.W; Buffer.W; Buffer.W;
                      Buffer.W; Buffer.W]) = 3.
 Proof. vm_compute. reflexivity. Qed.
+
+(* The hand-off queue itself (Model/Lane.v = the code of SingleLane, not the atomic FIFO assumed above): for every bound
+   n > 0, every script of the writer and of the reader and every interleaving, the deque never holds more than n items -
+   although put re-tests nothing after a wake-up. *)
+From MpV Require Model.Lane Proof.LaneProof.
+Theorem C08_singlelane_bound : forall (g : Lane.cfg) (sched : list Lane.label),
+  0 < Lane.maxsize g -> length (Lane.q (run Lane.step g (Lane.init g) sched)) <= Lane.maxsize g.
+Proof. exact LaneProof.lane_bound. Qed.
+Print Assumptions C08_singlelane_bound.
